@@ -6,6 +6,16 @@ BASE = json.load(open("/root/.vp/BASELINE.json"))["cmd"] if os.path.exists("/roo
     "cd /repo && /venv/bin/python -m pytest -ra -q -p no:cacheprovider --timeout=900 --continue-on-collection-errors"
 
 CLAIMED = {
+ "C15": dict(
+    technique="static analysis: clang AST branch analysis of the in-place/regular arithmetic paths (typestate: type guard before write, no field write, returns self), closed-writer-set query over all six C files, CWRAP/OUT_RNG/create_indexlist dimension pairing, integer-narrowing rule, fresh-return rule for the Python elementwise functions",
+    text="Static and deliberately narrow: the equality of dense-matrix operations with a column-major reference model is a statement about run-time values and is NOT decided. Decided, exhaustively over dense.c/base.c/__init__.py: in-place arithmetic rejects a type change before touching the buffer, assigns no field of self, frees nothing derived from self and returns self; buffer/id/nrows/ncols of an existing matrix are written only by constructors and the guarded size setter, and a buffer is freed only on deallocation; regular operations return Matrix_New* results; every negative-index wrap uses the dimension its index was range-checked against and Python integer indices are not narrowed before the range test; max/min/mul/div return fresh matrices.",
+    note="Trusted: clang 14, sa/cexpr.py, CPython ast; Matrix_New* allocate fresh objects.",
+    ref="DESIGN.md section 3, C15"),
+ "C20": dict(
+    technique="static analysis: closed writer/free-set query, field-assignment table of getbuf with enclosing-condition analysis, structural agreement of __reduce__ state with constructor keyword lists, byte-count expression agreement of tofile/fromfile, stride-form rule over every read of the imported buffer",
+    text="Static: value equality after a round trip is NOT decided. Decided: storage of an exported matrix is stable (closed writer/free set), getbuf hands out the matrix's own buffer, takes a reference, counts the export and unconditionally refreshes shape/strides from the current size, relbuf uncounts; __reduce__ returns (type, (values, size, tc)) matching the constructor's parameters with len(matrix) items of the matrix's own type; tofile/fromfile use one byte-count expression and fromfile checks the bytes read; buffer import reads every element through both strides as byte offsets with the source format's C type and shares the format table with export; matrix(x), +x and slicing build new objects.",
+    note="Trusted: clang 14, the Python buffer protocol; several sub-rules compare whitespace-insensitive source forms of small fixed idioms (state tuple, byte counts).",
+    ref="DESIGN.md section 3, C20"),
  "C18": dict(
     technique="static analysis: clang AST + case-based abstract execution; event-order rule for info (call -> test -> return), flag pass-through comparison per case, stride algebra of the private-copy loops, allocation/cast type pairing, sibling-arm isomorphism, parse/keyword/manual table agreement",
     text="Static, exhaustive over the 60 wrappers of lapack.c and their cases: the info value of every LAPACK call is tested (err_lapack: <0 ValueError, >0 ArithmeticError) on every path to a normal return; without the optional pivot/factor argument the routine works on a private column-by-column copy of A whose source stride is A's leading dimension and whose destination stride is the leading dimension passed with the copy; validated flag characters reach the complex routine unchanged; workspace arrays are allocated with the element type they are passed as and select callbacks run under the GIL; real/complex arms identical up to precision; keyword/format/address tables, naming convention and manual signatures agree. Guard/footprint agreement is decided under C19. It does NOT decide residuals, orthogonality or ordering of the numerical results.",
